@@ -553,6 +553,16 @@ func (c *FailoverController) executeFailback(reason string) {
 			zap.Duration("duration", c.config.GracePeriod),
 		)
 		time.Sleep(c.config.GracePeriod)
+
+		// The partner may have failed again while we were draining: handing
+		// the active role to a dead partner would leave no active node.
+		if !c.healthMonitor.IsPartnerHealthy() {
+			c.logger.Warn("Partner became unhealthy during grace period, canceling failback")
+			c.mu.Lock()
+			c.state = FailoverStateComplete
+			c.mu.Unlock()
+			return
+		}
 	}
 
 	// Call role change callback
